@@ -230,6 +230,7 @@ class Checker:
         self.log_lines = []
         self.ids = _IdMap()  # python object -> id string (keeps the objects alive: id() is never reused within a run)
         self.expect_sender = None  # while a known client is sending: the id every client-kind router call must carry
+        self.expect_msg = None  # (kind, device) of a message handed to a driver's own send path: it must reach the router as it is
 
     def idof(self, obj):
         if obj is None:
@@ -246,6 +247,11 @@ class Checker:
         kind = message.tag_name()
         dev = getattr(message, "device", None)
         sid = self.idof(sender)
+        if self.expect_msg is not None and not self.stack:
+            want, self.expect_msg = self.expect_msg, None
+            if want != (kind, dev):
+                self.violate("C04.devices" if kind in CLIENT_KINDS else "C05.matrix",
+                             f"a driver sent {want[0]} device={want[1]!r}; it reached the router as {kind} device={dev!r}: it is then routed to the wrong endpoints")
         if self.expect_sender is not None and not self.stack and kind in CLIENT_KINDS and sid != self.expect_sender:
             # (outermost call only: nested calls are other endpoints reacting to what they were handed)
             self.violate("C04.relay", f"{kind} sent by client {self.expect_sender} reached the router as coming from {sid}: the router cannot keep it from being handed back to its sender")
@@ -467,7 +473,14 @@ def execute_level1(scen):
                     spec = make_spec(rng, kind, device, st.get("value"))
                     msg = build_message(spec)
                     try:
-                        router.process_message(msg, sender=sender)
+                        if isinstance(sender, Driver) and kind in DEVICE_KINDS:
+                            # a real driver sends through its own send path (what driver code calls), not through the router directly
+                            chk.expect_msg = (kind, getattr(msg, "device", None))
+                            chk.probe("driver_sends_through_its_own_send_path")
+                            sender.send_message(msg)
+                            chk.expect_msg = None
+                        else:
+                            router.process_message(msg, sender=sender)
                     except RuntimeError as e:
                         if "injected failure" not in str(e):
                             raise
